@@ -16,13 +16,19 @@ inductive Token
   | int (z : Int)       -- a plain integer (or an instance of an int subclass other than bool / CScriptOp)
   | data (b : Bytes)    -- a byte string (bytes, bytearray, or an instance of a subclass such as CScript)
   | bool (b : Bool)     -- True / False (Python's bool is an int: they build as 1 / 0)
-  | other               -- an element of any other type (str, None, float, list, …): not a script element
+  | buffer (b : Bytes)  -- any other object supporting the buffer protocol (memoryview, array.array('B')):
+                        -- no isinstance branch coerces it, and bytes.join / bytes.__add__ accept it, so its
+                        -- bytes are spliced in RAW (no push opcode) — Python behaviour outside the property's
+                        -- alphabet, modelled so that the model claims nothing false about it
+  | other               -- an element of a type that is none of the above and has no buffer interface
+                        -- (str, None, float, list, …): not a script element
 deriving DecidableEq, Repr
 
 /-- tokens for which the read-back laws are claimed: opcode tokens 0x4f..0xff (a CScriptOp below
     OP_1NEGATE is a push opcode and swallows what follows it), any integer, any byte string -/
 def Token.inDomain : Token → Prop
   | .op n => 0x4f ≤ n
+  | .buffer _ => False
   | .other => False
   | _ => True
 
@@ -106,6 +112,7 @@ def tokenBytes : Token → Option Bytes
       else pushEncode (numEncode z)
   | .data d => pushEncode d
   | .bool b => some [if b then 0x51 else 0x00]
+  | .buffer b => some b
   | .other => none
 
 def build : List Token → Option Bytes
@@ -125,6 +132,7 @@ def canonTok : Token → Token
       else .data (numEncode z)
   | .data d => if d = [] then .int 0 else .data d
   | .bool b => .int (if b then 1 else 0)
+  | .buffer b => .buffer b
   | .other => .other
 
 def canon (ts : List Token) : List Token := ts.map canonTok
@@ -282,6 +290,18 @@ def sigOpCount (accurate : Bool) (s : Bytes) : Nat := sigOpsFrom accurate 0xff (
 def lastOpcodeFrom : Nat → List (Nat × Bytes) → Nat
   | last, [] => last
   | _, (o, _) :: r => lastOpcodeFrom o r
+
+/-- what one more operation adds to the count, given the opcode before it (none at the start):
+    1 for CHECKSIG(VERIFY); for CHECKMULTISIG(VERIFY) the n of a directly preceding OP_1..OP_16 in
+    accurate mode and 20 in every other situation (legacy mode; at the start; after OP_0, OP_1NEGATE,
+    a push or any other opcode); 0 for everything else -/
+def sigWeight (accurate : Bool) (prev : Option Nat) (o : Nat) : Nat :=
+  if o = 0xac ∨ o = 0xad then 1
+  else if o = 0xae ∨ o = 0xaf then
+    match prev with
+    | some q => if accurate ∧ 0x51 ≤ q ∧ q ≤ 0x60 then q - 0x50 else 20
+    | none => 20
+  else 0
 
 /-- OP_0 / OP_1..OP_16 for a version or small number 0..16 -/
 def opN (v : Nat) : Nat := if v = 0 then 0x00 else 0x50 + v
